@@ -170,6 +170,19 @@ where
 		let parent_key_id = w.parent_key_id();
 
 		if let Some(args) = context.late_lock_args.take() {
+			// The payment proof was requested at initiation, before anything was
+			// stored in the tx log: the returning slate must still carry the proof
+			// data for the requested recipient, otherwise nothing would check it below
+			if let Some(ref a) = args.payment_proof_recipient_address {
+				match sl.payment_proof {
+					Some(ref p) if p.receiver_address == a.pub_key => {}
+					_ => {
+						return Err(Error::PaymentProof(
+							"Expected Payment Proof for this Transaction is not present".to_owned(),
+						));
+					}
+				}
+			}
 			// Transaction was late locked, select inputs+change now
 			// and insert into original context
 
